@@ -166,7 +166,7 @@ class ReservedCfdpMessage(AbstractTlvBase):
     ) -> Optional[TransactionId]:
         if not self.is_originating_transaction_id():
             return None
-        if len(self.value) < 1:
+        if len(self.value) < 6:
             raise ValueError("originating transaction ID value field to small")
         source_id_len = ((self.value[5] >> 4) & 0b111) + 1
         seq_num_len = (self.value[5] & 0b111) + 1
@@ -211,6 +211,10 @@ class ReservedCfdpMessage(AbstractTlvBase):
             or self.get_cfdp_proxy_message_type() != ProxyMessageType.PUT_RESPONSE
         ):
             return None
+        if len(self.value) < 6:
+            raise ValueError(
+                f"value with length {len(self.value)} too small for proxy put response."
+            )
         condition_code = ConditionCode((self.value[5] >> 4) & 0b1111)
         delivery_code = DeliveryCode((self.value[5] >> 2) & 0b1)
         file_status = FileStatus(self.value[5] & 0b11)
@@ -222,6 +226,10 @@ class ReservedCfdpMessage(AbstractTlvBase):
             or self.get_cfdp_proxy_message_type() != ProxyMessageType.CLOSURE_REQUEST
         ):
             return None
+        if len(self.value) < 6:
+            raise ValueError(
+                f"value with length {len(self.value)} too small for proxy closure request."
+            )
         return self.value[5] & 0b1
 
     def get_proxy_transmission_mode(self) -> Optional[TransmissionMode]:
@@ -230,6 +238,10 @@ class ReservedCfdpMessage(AbstractTlvBase):
             or self.get_cfdp_proxy_message_type() != ProxyMessageType.TRANSMISSION_MODE
         ):
             return None
+        if len(self.value) < 6:
+            raise ValueError(
+                f"value with length {len(self.value)} too small for proxy transmission mode."
+            )
         return TransmissionMode(self.value[5] & 0b1)
 
     def get_dir_listing_request_params(self) -> Optional[DirectoryParams]:
@@ -257,7 +269,7 @@ class ReservedCfdpMessage(AbstractTlvBase):
             != DirectoryOperationMessageType.LISTING_RESPONSE
         ):
             return None
-        if len(self.value) < 1:
+        if len(self.value) < 6:
             raise ValueError(
                 f"value with length {len(self.value)} too small for dir listing response."
             )
@@ -273,7 +285,7 @@ class ReservedCfdpMessage(AbstractTlvBase):
             != DirectoryOperationMessageType.CUSTOM_LISTING_PARAMETERS
         ):
             return None
-        if len(self.value) < 1:
+        if len(self.value) < 6:
             raise ValueError(
                 f"value with length {len(self.value)} too small for dir listing options."
             )
